@@ -571,6 +571,8 @@ pub fn parts(id: &'static str, tier: Tier) -> Vec<Part<Case>> {
             c.w_modify = 14;
             c.w_reload = 3;
             c.w_advance = 8;
+            // tied orders arriving on a book left crossed by a no-trading period
+            c.w_trading = 2;
             parts.push(random_part("random-dense-ties", c.clone(), tier.pick(120_000, 2_500_000)));
             c.wide = true;
             parts.push(random_part("random-wide-ties", c.clone(), tier.pick(40_000, 1_000_000)));
